@@ -22,7 +22,10 @@ def alloc_conf(prop, rule, extra_assume=(), level="model_checking"):
                   "universes are closed alphabets of pool layouts and service variants (DESIGN 5)", "map iteration order owned: sorted"] + list(extra_assume),
  }
 
-NDP_CALLS = [{"file": "internal/layer2/ndp.go", "recv": "n.conn", "method": m, "to": "verifNDP" + m, "pass": "n"} for m in ("ReadFrom", "WriteTo", "JoinGroup", "LeaveGroup")]
+NDP_CALLS = [{"file": "internal/layer2/ndp.go", "recv": "n.conn", "method": m, "to": "verifNDP" + m, "pass": "n"} for m in ("ReadFrom", "WriteTo", "JoinGroup", "LeaveGroup", "Close")] + [
+    {"file": "internal/layer2/ndp.go", "recv": "ndp", "method": "Dial", "to": "verifNDPDial", "pass": ""},
+    {"file": "internal/layer2/announcer.go", "recv": "net", "method": "Interfaces", "to": "verifNetInterfaces", "pass": ""},
+    {"file": "internal/layer2/announcer.go", "recv": "ifi", "method": "Addrs", "to": "verifIfAddrs", "pass": "ifi"}]
 MAP_SPEAKER = ["speaker/layer2_controller.go", "speaker/main.go", "speaker/bgp_controller.go"]
 
 MAP_SPK_FULL = MAP_SPEAKER + ["internal/config/config.go", "internal/k8s/controllers/config_conversion.go", "internal/k8s/controllers/config_controller.go",
@@ -147,7 +150,7 @@ CONF = {
             {"name": "ndp-groups", "pkg": "internal/layer2", "test": "TestVerif_C13ndp", "shards": 1, "free": True, "rewrites": {"go": ["internal/layer2/announcer.go"]}},
             {"name": "spam-loop", "pkg": "internal/layer2", "test": "TestVerif_C13spam", "shards": 1, "free": True, "gomaxprocs": 8, "rewrites": {"go": ["internal/layer2/announcer.go"]}},
             {"name": "ndp-pkt", "pkg": "internal/layer2", "test": "TestVerif_C13ndppkt", "shards": 8, "gomaxprocs": 1,
-             "rewrites": {"go": ["internal/layer2/announcer.go"], "calls": NDP_CALLS}}],
+             "rewrites": {"go": ["internal/layer2/announcer.go", "internal/layer2/ndp.go"], "calls": NDP_CALLS}}],
   "rewrites": {"sync": ["internal/layer2/announcer.go"], "go": ["internal/layer2/announcer.go"], "map": ["internal/layer2/announcer.go"], "chan": ["internal/layer2/announcer.go"]},
   "assumptions": ["NDP packet path: ndp.Conn's four methods used by the responder (ReadFrom, WriteTo, JoinGroup, LeaveGroup) are redirected to an in-memory connection (R-call rewrite of ndp.go); frames are parsed by the library's own ParseMessage as Conn.ReadFrom does; a solicitation without source link-layer address option is not required to be answered (MetalLB drops it; the statement is silent); the kernel's view of solicited-node multicast membership is covered by the ndp-groups part where an ICMPv6 listener can be opened on a local interface (the part reports when it had to be skipped)",
                   "background interface scan and spam loop suppressed; the spam loop's effect (gratuitous of a queued advertisement) is delivered by the harness",
